@@ -287,3 +287,47 @@ func ZZ_C02_public_foreign() {
 	_, err2 := wd.TokenAs("c1", world.Secret1, rform)
 	zz.Assert(err2 == nil, "a refused attempt leaves the code usable by its rightful holder")
 }
+
+// ZZ_C02_hybrid_binding: the same client / redirect_uri binding for a code issued by the OpenID Connect
+// hybrid flow (response_type "code token"): the token endpoint enforces the redirect_uri of the
+// authorization request whatever handler stored the code session.
+func ZZ_C02_hybrid_binding() {
+	wd := world.NewX(world.XOptions{Hybrid: true})
+	form := url.Values{
+		"client_id": {"c1"}, "response_type": {"code token"}, "redirect_uri": {cb1},
+		"scope": {"offline photos"}, "state": {"state-0123456789"},
+	}
+	ar, err := wd.Provider.NewAuthorizeRequest(wd.Ctx, world.Get(form))
+	zz.Assume(err == nil)
+	ar.GrantScope("offline")
+	ar.GrantScope("photos")
+	resp, err := wd.Provider.NewAuthorizeResponse(wd.Ctx, ar, world.NewOIDCSession("peter"))
+	zz.Assume(err == nil)
+	code := resp.GetCode()
+	zz.Assume(code != "")
+
+	cl := zz.StringEx("client", 4, " ")
+	secret := map[string]string{"c1": world.Secret1, "c2": world.Secret2}[cl]
+	rp := zz.String("redirect", 24)
+	tf := url.Values{"grant_type": {"authorization_code"}, "code": {code}}
+	if zz.Choice("redirect-parameter", 2) == 1 {
+		tf.Set("redirect_uri", rp)
+	} else {
+		rp = "" // parameter absent
+	}
+	at0, rt0 := stored(wd)
+	r, err := wd.TokenAs(cl, secret, tf)
+	zz.Observe("attempt.err", world.ErrName(err))
+	if err == nil {
+		zz.Cover("hybrid:redeemed", true)
+		zz.Assert(cl == "c1", "hybrid code redeemed only by the client it was issued to")
+		zz.Assert(rp == cb1, "hybrid code redeemed only with the redirect_uri of the authorization request")
+		zz.Assert(r.GetAccessToken() != "", "tokens issued")
+		return
+	}
+	zz.Cover("hybrid:refused", true)
+	at1, rt1 := stored(wd)
+	zz.Assert(at1 == at0 && rt1 == rt0, "a refused attempt issues nothing")
+	_, err2 := wd.TokenAs("c1", world.Secret1, url.Values{"grant_type": {"authorization_code"}, "code": {code}, "redirect_uri": {cb1}})
+	zz.Assert(err2 == nil, "a refused attempt leaves the hybrid code usable by its rightful holder")
+}
